@@ -249,7 +249,7 @@ func ruleP10(c *Ctx, rels ...string) {
 					ops = []ssa.Value{x.X, x.Y}
 				}
 			case *ssa.Call:
-				if f := x.Call.StaticCallee(); f != nil && f.Name() == "stringLess" {
+				if f := x.Call.StaticCallee(); f != nil && fnName(f) == "stringLess" {
 					ops = x.Call.Args[:2]
 				}
 			}
